@@ -10,5 +10,6 @@ pub mod sources;
 pub mod cli;
 pub mod server;
 pub mod vpltree;
+pub mod mvt;
 
 pub use engine::{guard, Check, Fail, Obs, Tier};
